@@ -1,2 +1,144 @@
-/- C02 driver (stub until the model exists) -/
-def main : IO Unit := pure ()
+/- C02 driver: trace acceptor. Input per case: op lines, then the implementation's output lines
+prefixed "T ", then "end". Replays the implementation's callback order on the model (every
+`F j` must be a `fire` step that is enabled in the model: due, minimal deadline, object armed),
+checks that the pass ends with nothing due, and compares every API result and isEnabled()
+vector. Prints `ok …` or `reject …`. -/
+import TboxModel.Util
+import TboxModel.C02.Model
+open Tbox.Util Tbox.C02
+
+def bitsOf (s : State) : String :=
+  if s.nObjs = 0 then "-" else
+  String.ofList ((List.range s.nObjs).map fun j =>
+    let o := s.obj j
+    if !o.alive then 'x' else if o.inited && o.enabled then '1' else '0')
+
+def parseAct (w : String) : Option Act :=
+  match w.toList with
+  | 'i' :: rest =>
+      match (String.ofList rest).splitOn ":" with
+      | [j, ms, m] => do
+          let j ← j.toNat?; let ms ← ms.toNat?
+          if ms < 1 then none else
+          if m == "o" then some (.init j ms true) else if m == "p" then some (.init j ms false) else none
+      | _ => none
+  | 'e' :: rest => (String.ofList rest).toNat?.map .enable
+  | 'd' :: rest => (String.ofList rest).toNat?.map .disable
+  | 'x' :: rest => (String.ofList rest).toNat?.map .destroy
+  | _ => none
+
+def parseScript (w : String) (self : Nat) : Option (List Act) :=
+  if w == "-" then some [] else
+  (w.splitOn ",").mapM fun item => do
+    let a ← parseAct item
+    match a with
+    | .destroy j => if j = self then none else some a
+    | _ => some a
+
+inductive POp where
+  | new (sc : List Act) | api (a : Act) | adv (d : Nat) | bad
+
+def parseOp (s : State) (ws : List String) : POp :=
+  match ws with
+  | ["new", sc] => match parseScript sc s.nObjs with | some l => .new l | none => .bad
+  | ["adv", d] => match d.toNat? with | some n => if n ≤ 100000 then .adv n else .bad | none => .bad
+  | ["init", j, ms, m] => match parseAct ("i" ++ j ++ ":" ++ ms ++ ":" ++ m) with
+      | some (.init j ms o) => if j < s.nObjs then .api (.init j ms o) else .bad | _ => .bad
+  | ["en", j] => match j.toNat? with | some j => if j < s.nObjs then .api (.enable j) else .bad | none => .bad
+  | ["dis", j] => match j.toNat? with | some j => if j < s.nObjs then .api (.disable j) else .bad | none => .bad
+  | ["del", j] => match j.toNat? with | some j => if j < s.nObjs then .api (.destroy j) else .bad | none => .bad
+  | _ => .bad
+
+structure TAcc where
+  s : State := init
+  tl : List String := []
+  tags : List String := []
+  err : Option String := none
+  nops : Nat := 0
+
+def expectLine (a : TAcc) (want : String) (what : String) : TAcc :=
+  match a.tl with
+  | l :: rest => if l == want then { a with tl := rest }
+                 else { a with err := some s!"op#{a.nops} {what}: impl=[{l}] model=[{want}]" }
+  | [] => { a with err := some s!"op#{a.nops} {what}: impl=<missing> model=[{want}]" }
+
+/-- consume the `F j en=…` lines of one pass -/
+partial def firePass (a : TAcc) (seen : List Nat) : TAcc :=
+  match a.tl with
+  | l :: rest =>
+    match words l with
+    | ["F", j, en] =>
+      match j.toNat? with
+      | none => { a with err := some s!"op#{a.nops} unparsable callback line [{l}]" }
+      | some j =>
+        match a.s.timers.find? (fun r => r.owner == j) with
+        | none => { a with err := some s!"op#{a.nops} callback on timer {j} which is not armed (disabled, destroyed, one-shot already fired, or never enabled)" }
+        | some r =>
+          if !canFire a.s r then
+            let t := a.s.passNow.getD 0
+            if r.expired > t then { a with err := some s!"op#{a.nops} timer {j} fired EARLY: deadline {r.expired} > now {t}" }
+            else { a with err := some s!"op#{a.nops} timer {j} (deadline {r.expired}) fired before an earlier deadline" }
+          else
+            -- isEnabled() vector at callback entry: a one-shot already reports disabled
+            let sEntry := if r.oneshot then a.s.setObj j { a.s.obj j with enabled := false } else a.s
+            let want := "en=" ++ bitsOf sEntry
+            if en != want then { a with err := some s!"op#{a.nops} at entry of callback {j}: impl=[{en}] model=[{want}]" }
+            else
+              let ties := (a.s.timers.filter fun q => q.expired == r.expired).length
+              let nBefore := a.s.timers.length
+              let s' := fire a.s r
+              let tags := (if ties > 1 then ["tie"] else []) ++ (if seen.contains j then ["catchup"] else [])
+                ++ (if a.s.passNow.getD 0 > r.expired then ["late"] else [])
+                ++ (if s'.timers.length + (if r.oneshot then 1 else 0) < nBefore then ["cb-removed-other"] else [])
+                ++ (if s'.timers.length + (if r.oneshot then 1 else 0) > nBefore then ["cb-armed-other"] else [])
+              firePass { a with s := s', tl := rest, tags := a.tags ++ tags } (j :: seen)
+    | _ => a
+  | [] => a
+
+def stepOp (a : TAcc) (line : String) : TAcc :=
+  if a.err.isSome then a else
+  let a := { a with nops := a.nops + 1 }
+  match parseOp a.s (words line) with
+  | .bad => expectLine a "bad-op" "malformed op"
+  | .new sc =>
+      let s' := step a.s (.newObj sc)
+      expectLine { a with s := s' } ("P ret=1 en=" ++ bitsOf s') "new"
+  | .api act_ =>
+      let (s', r) := act a.s act_
+      expectLine { a with s := s' } ("P ret=" ++ (if r then "1" else "0") ++ " en=" ++ bitsOf s') "api result"
+  | .adv d =>
+      let s1 := step (step a.s (.advance d)) .beginPass
+      let a1 := firePass { a with s := s1 } []
+      if a1.err.isSome then a1 else
+      if !valid a1.s .endPass then
+        let due := a1.s.timers.filter fun r => r.expired ≤ a1.s.passNow.getD 0
+        { a1 with err := some s!"op#{a1.nops} pass ended although timer(s) {due.map (·.owner)} are due (deadline(s) {due.map (·.expired)} <= now {a1.s.passNow.getD 0}): SKIPPED" }
+      else
+        let s2 := step a1.s .endPass
+        let fired := a1.s.log.length - a.s.log.length
+        let tg := if fired = 0 then "pass0" else if fired = 1 then "pass1" else "passN"
+        expectLine { a1 with s := s2, tags := a1.tags ++ [tg] } ("P ret=1 en=" ++ bitsOf s2) "after pass"
+
+structure DS where
+  ops : Array String := #[]
+  tl : Array String := #[]
+
+def finish (d : DS) : List String :=
+  let a : TAcc := d.ops.foldl stepOp ({ tl := d.tl.toList } : TAcc)
+  let tagsLine := if a.tags.isEmpty then [] else ["B " ++ " ".intercalate a.tags.eraseDups]
+  match a.err with
+  | some e => tagsLine ++ ["reject " ++ e]
+  | none =>
+    match a.tl with
+    | [] => tagsLine ++ [s!"ok ops={a.nops} callbacks={a.s.log.length}"]
+    | l :: _ => tagsLine ++ ["reject unexpected extra implementation output: [" ++ l ++ "]"]
+
+def stepLine (d : DS) (line : String) : DS × List String :=
+  let t := line.trimAscii.toString
+  if t.isEmpty then (d, [])
+  else if t.startsWith "case " then ({}, [t])
+  else if t == "end" then ({}, finish d)
+  else if t.startsWith "T " then ({ d with tl := d.tl.push (t.drop 2).toString }, [])
+  else ({ d with ops := d.ops.push t }, [])
+
+def main : IO Unit := runDriver ({} : DS) stepLine
